@@ -7,11 +7,16 @@ package compressor
 //   liberr == 1  <=> some library call reported an error during this call
 //   snap == 1     => the output buffer was read after the compressing writer was closed
 //   libout        = identity of the slice the library produced last
+//   integrity == 1 <=> a decoder verified a checksum over the whole decoded content and saw the end of
+//                     its stream (second sentence of C24: damaged input is an error, never silently
+//                     different data). OPEN FINDINGS: neither the LZ4 reader (input cut at a block
+//                     boundary) nor the snappy block format provides that, and the code adds no check.
 
 //@ func (*compressor).decompressGzip(c, compressed) (out, err)
 //@   ensures[algo] err == nil ==> ghost("algo") == 1
 //@   property C24
-//@   requires ghost("liberr") == 0
+//@   requires ghost("liberr") == 0 && ghost("integrity") == 0
+//@   ensures[C24:damaged_input_never_decodes_silently] err == nil ==> ghost("integrity") == 1
 //@   ensures[no_hidden_error] ghost("liberr") == 1 ==> err != nil
 //@   ensures[lib_output] err == nil ==> ghost("libout") == sliceid(out)
 //@   ensures[output_not_shared] err == nil && len(out) > 0 ==> fresh(out)
@@ -20,7 +25,8 @@ package compressor
 //@ func (*compressor).decompressLZ4(c, compressed) (out, err)
 //@   ensures[algo] err == nil ==> ghost("algo") == 2
 //@   property C24
-//@   requires ghost("liberr") == 0
+//@   requires ghost("liberr") == 0 && ghost("integrity") == 0
+//@   ensures[C24:damaged_input_never_decodes_silently] err == nil ==> ghost("integrity") == 1
 //@   ensures[no_hidden_error] ghost("liberr") == 1 ==> err != nil
 //@   ensures[lib_output] err == nil ==> ghost("libout") == sliceid(out)
 //@   ensures[output_not_shared] err == nil && len(out) > 0 ==> fresh(out)
@@ -29,7 +35,8 @@ package compressor
 //@ func (*compressor).decompressSnappy(c, compressed) (out, err)
 //@   ensures[algo] err == nil ==> ghost("algo") == 3
 //@   property C24
-//@   requires ghost("liberr") == 0
+//@   requires ghost("liberr") == 0 && ghost("integrity") == 0
+//@   ensures[C24:damaged_input_never_decodes_silently] err == nil ==> ghost("integrity") == 1
 //@   ensures[no_hidden_error] ghost("liberr") == 1 ==> err != nil
 //@   ensures[lib_output] err == nil ==> ghost("libout") == sliceid(out)
 //@   ensures[output_not_shared] err == nil && len(out) > 0 ==> fresh(out)
@@ -38,7 +45,8 @@ package compressor
 //@ func (*compressor).decompressZstd(c, compressed) (out, err)
 //@   ensures[algo] err == nil ==> ghost("algo") == 4
 //@   property C24
-//@   requires ghost("liberr") == 0
+//@   requires ghost("liberr") == 0 && ghost("integrity") == 0
+//@   ensures[C24:damaged_input_never_decodes_silently] err == nil ==> ghost("integrity") == 1
 //@   ensures[no_hidden_error] ghost("liberr") == 1 ==> err != nil
 //@   ensures[lib_output] err == nil ==> ghost("libout") == sliceid(out)
 //@   ensures[output_not_shared] err == nil && len(out) > 0 ==> fresh(out)
@@ -95,7 +103,8 @@ package compressor
 
 //@ func (*compressor).Decompress(c, data) (out, err)
 //@   property C24
-//@   requires ghost("liberr") == 0
+//@   requires ghost("liberr") == 0 && ghost("integrity") == 0
+//@   ensures[C24:damaged_input_never_decodes_silently] err == nil ==> ghost("integrity") == 1
 //@   ensures[no_hidden_error] ghost("liberr") == 1 ==> err != nil
 //@   ensures[unknown_type] (old(c.compressorType) < 1 || old(c.compressorType) > 4) ==> err != nil
 //@   ensures[lib_output] err == nil ==> ghost("libout") == sliceid(out)
